@@ -445,7 +445,7 @@ pub fn run(rc: &mut RunCtx) {
         let (frames, encs) = loop {
             let (f, e) = gen_stream(&mut r, 3);
             let len: usize = e.iter().map(|x| x.len()).sum();
-            if len <= if rc.miri() { 36 } else if rc.quick() { 90 } else { 160 } {
+            if len <= if rc.miri() { 18 } else if rc.quick() { 90 } else { 160 } {
                 break (f, e);
             }
         };
@@ -490,7 +490,7 @@ pub fn run(rc: &mut RunCtx) {
     }
     rc.note("exhaustive_over", json!("every pair of cut positions (with and without a would-block after each read) and every EOF offset of the short streams"));
     // (2) random streams, random cuts
-    let n = if rc.miri() { 40 } else { rc.n(6000, 300000) };
+    let n = if rc.miri() { 24 } else { rc.n(6000, 300000) };
     for i in 0..n {
         let id = format!("rand:{}", i);
         if !rc.mine(&id) {
@@ -499,8 +499,14 @@ pub fn run(rc: &mut RunCtx) {
         rc.begin(&id);
         let mut res = CaseResult::new(id);
         let mut r = Rng::for_case(seed, 6, 1000 + i);
-        let nf = if i % 20 == 7 { r.usize(20, 60) } else { r.usize(1, 12) };
-        let (frames, encs) = gen_stream(&mut r, nf);
+        let nf = if rc.miri() { r.usize(1, 3) } else if i % 20 == 7 { r.usize(20, 60) } else { r.usize(1, 12) };
+        let (frames, encs) = loop {
+            let (f, e) = gen_stream(&mut r, nf);
+            // the interpreter is ~4 orders of magnitude slower: short streams only
+            if !rc.miri() || e.iter().map(|x| x.len()).sum::<usize>() <= 400 {
+                break (f, e);
+            }
+        };
         let len: usize = encs.iter().map(|x| x.len()).sum();
         let cuts: Vec<usize> = match r.below(5) {
             0 => (0..len).collect(), // 1-byte reads
